@@ -17,21 +17,33 @@ func RegLan(src string) (string, error) {
 	if err != nil {
 		return "", err
 	}
-	// strip the anchors: must be a concat starting with BeginText and ending with EndText
+	// strip the anchors: a concat starting with ^ and ending with $ (text or, under (?m), line anchors)
 	subs := []*syntax.Regexp{re}
 	if re.Op == syntax.OpConcat {
 		subs = re.Sub
 	}
-	if len(subs) < 2 || subs[0].Op != syntax.OpBeginText || subs[len(subs)-1].Op != syntax.OpEndText {
+	if len(subs) < 2 {
+		return "", fmt.Errorf("regex is not of the form ^...$: %s", src)
+	}
+	first, last := subs[0].Op, subs[len(subs)-1].Op
+	if (first != syntax.OpBeginText && first != syntax.OpBeginLine) || (last != syntax.OpEndText && last != syntax.OpEndLine) {
 		return "", fmt.Errorf("regex is not of the form ^...$: %s", src)
 	}
 	var parts []string
+	all := `(re.* (re.range "\u{0}" "\u{7f}"))`
+	if first == syntax.OpBeginLine {
+		// (?m)^ : start of text or just after a newline
+		parts = append(parts, `(re.opt (re.++ `+all+` (str.to_re "\u{a}")))`)
+	}
 	for _, s := range subs[1 : len(subs)-1] {
 		t, err := regLan(s)
 		if err != nil {
 			return "", err
 		}
 		parts = append(parts, t)
+	}
+	if last == syntax.OpEndLine {
+		parts = append(parts, `(re.opt (re.++ (str.to_re "\u{a}") `+all+`))`)
 	}
 	return reConcat(parts), nil
 }
